@@ -438,6 +438,35 @@ def explore(prog, S, fn, site, obj):
 
 
 # ------------------------------------------------------------------ boundary constants in double comparisons
+def _int_constant(fn, n):
+    """the integer constant an operand stands for: a constant expression, or a local that is defined exactly
+    once, by its initializer, from one (`const double fix_max = SEXP_MAX_FIXNUM;` - the rounding then
+    happens at the initialization, the comparison is the same)"""
+    cv = fn.const_val(n)
+    if cv is not None:
+        return cv
+    n = fn.strip(n)
+    nd = fn.nodes[n]
+    if nd["k"] != "ref" or "d" not in nd or nd["d"] in fn.params:
+        return None
+    vid = nd["d"]
+    init = None
+    for i, x in enumerate(fn.nodes):
+        if x["k"] == "decl" and x.get("d") == vid:
+            if init is not None or not x.get("c"):
+                return None
+            init = x["c"][0]
+        elif x["k"] == "bin" and x["o"].endswith("=") and x["o"] not in ("==", "!=", "<=", ">="):
+            l = fn.strip(x["c"][0])
+            if fn.nodes[l]["k"] == "ref" and fn.nodes[l].get("d") == vid:
+                return None
+        elif x["k"] == "un" and x["o"] in ("pre++", "pre--", "post++", "post--", "&"):
+            l = fn.strip(x["c"][0])
+            if fn.nodes[l]["k"] == "ref" and fn.nodes[l].get("d") == vid:
+                return None
+    return fn.const_val(init) if init is not None else None
+
+
 def run_bounds(prog, res, prop, rule, units, floor=1):
     """A double compared with an integer constant that binary64 cannot represent is compared with the rounded
     constant.  `x > C` with C rounding up to C' misses x == C' (which is > C); `x >= C` is still right for
@@ -453,7 +482,7 @@ def run_bounds(prog, res, prop, rule, units, floor=1):
             l, r = nd["c"]
             for (a, b, flip) in ((l, r, False), (r, l, True)):
                 ta = fn.type(fn.strip(a)) or ""
-                cv = fn.const_val(b)
+                cv = _int_constant(fn, b)
                 if ta not in ("double", "float", "long double") or not isinstance(cv, int) or abs(cv) <= 2 ** 53:
                     continue
                 rounded = int(float(cv))
@@ -574,5 +603,5 @@ def bounds_witnesses(prog, res):
         elif name.startswith("witness_ok_"):
             n += 1
             res.witness.append((name, name not in flagged))
-    if n < 8:
+    if n < 10:
         res.broken.append("numeric-boundary witness file yielded only %d functions" % n)
